@@ -2,6 +2,7 @@ package main
 
 import (
 	"go/ast"
+	"regexp"
 	"strings"
 )
 
@@ -72,6 +73,84 @@ func genDispatch(c *ctx) string {
 		})
 	}
 	b.WriteString("def opFallbackAnyName : Bool := " + fb + "\n")
+	// ResolveExecutable: is a supplied variable bound when it is non-nil (an explicit null then falls back to the
+	// default, D41) or whenever it is present in the map?
+	nv := unknown("variable binding test", "resolve.go ResolveExecutable")
+	if re := c.funcs["Root.ResolveExecutable"]; re != nil {
+		n := 0
+		ast.Inspect(re.Body, func(nd ast.Node) bool {
+			if is, ok := nd.(*ast.IfStmt); ok && is.Init != nil && strings.Contains(c.src(is.Init), "vars[vd.Name]") {
+				n++
+				switch {
+				case c.src(is.Init) == "v := vars[vd.Name]" && c.src(is.Cond) == "v != nil":
+					nv = "true"
+				case c.src(is.Init) == "v, has := vars[vd.Name]" && c.src(is.Cond) == "has":
+					nv = "false"
+				}
+			}
+			return true
+		})
+		if n != 1 {
+			nv = unknown("variable binding sites", "resolve.go ResolveExecutable")
+		}
+	}
+	b.WriteString("def nullVarUsesDefault : Bool := " + nv + "\n")
+	lnc, su := replaceArgVarsForms(c)
+	b.WriteString("def listNotCoerced : Bool := " + lnc + "\n")
+	b.WriteString("def symbolUnchecked : Bool := " + su + "\n")
 	b.WriteString("end Ggql.Gen\n")
 	return b.String()
+}
+
+// replaceArgVarsForms reads the `[]interface{}` and `Symbol` arms of (*Root).replaceArgVars: whole-arm match
+// (comments stripped, white space collapsed) against the two known forms of each.
+func replaceArgVarsForms(c *ctx) (listNotCoerced, symbolUnchecked string) {
+	listNotCoerced = unknown("replaceArgVars list arm", "resolve.go")
+	symbolUnchecked = unknown("replaceArgVars symbol arm", "resolve.go")
+	fd := c.funcs["Root.replaceArgVars"]
+	if fd == nil {
+		return
+	}
+	norm := func(ss []ast.Stmt) string {
+		var parts []string
+		for _, st := range ss {
+			t := regexp.MustCompile(`(?m)//.*$`).ReplaceAllString(c.src(st), "")
+			parts = append(parts, regexp.MustCompile(`\s+`).ReplaceAllString(t, " "))
+		}
+		return strings.Join(parts, " ; ")
+	}
+	const coerce = `if ic, _ := at.(InCoercer); ic != nil { if val, err = ic.CoerceIn(val); err != nil { ea = append(ea, resWarnp(nil, "%s", err)) } }`
+	const loop = `for i, v := range tv { tv[i], ea2 = root.replaceArgVars(vars, v, mt) ea = append(ea, ea2...) }`
+	const enumChk = `bt := BaseType(at) ; if et, _ := bt.(*Enum); et != nil { if _, has := et.values.dict[string(tv)]; !has { ea = append(ea, resWarnp(nil, "%s is not a valid enum value in %s", tv, et.N)) } }`
+	ast.Inspect(fd.Body, func(n ast.Node) bool {
+		ts, ok := n.(*ast.TypeSwitchStmt)
+		if !ok {
+			return true
+		}
+		for _, cl := range ts.Body.List {
+			cc := cl.(*ast.CaseClause)
+			if len(cc.List) != 1 {
+				continue
+			}
+			body := norm(cc.Body)
+			switch c.src(cc.List[0]) {
+			case "[]interface{}":
+				switch body {
+				case `var mt Type ; if lt, _ := at.(*List); lt != nil { mt = lt.Base } ; ` + loop:
+					listNotCoerced = "true"
+				case `var mt Type ; lt, _ := at.(*List) ; if nn, _ := at.(*NonNull); nn != nil { lt, _ = nn.Base.(*List) } ; if lt != nil { mt = lt.Base } ; ` + loop + ` ; if lt == nil { ` + coerce + ` }`:
+					listNotCoerced = "false"
+				}
+			case "Symbol":
+				switch body {
+				case enumChk:
+					symbolUnchecked = "true"
+				case strings.TrimSuffix(enumChk, " }") + ` } else ` + coerce:
+					symbolUnchecked = "false"
+				}
+			}
+		}
+		return false
+	})
+	return
 }
